@@ -48,7 +48,10 @@ OtherMethods == << <<70,79,79>>,                 \* "FOO"
                    <<67,65,78,67,69>>,                            \* "CANCE"
                    <<78,79,84,73,70,89,49,50,51,52>>,             \* "NOTIFY1234"
                    <<83,73,80,47,50,46,48,45,69,88,84>>,          \* "SIP/2.0-EXT"  (starts like the version, but no space after it)
-                   <<115,105,112,47,50,46,48,120>> >>             \* "sip/2.0x"
+                   <<115,105,112,47,50,46,48,120>>,               \* "sip/2.0x"
+                   \* method tokens longer than the 14 bytes the parser waits for before it looks at the line
+                   <<80,82,69,45,65,85,84,72,79,82,73,90,69,68,45,73,78,86,73,84,69>>,        \* "PRE-AUTHORIZED-INVITE"
+                   <<76,79,78,71,45,77,69,84,72,79,68,45,78,65,77,69,45,88,45,65,67,75>> >>   \* "LONG-METHOD-NAME-X-ACK"
 GenMethods == MethodNames \o SubSeq([k \in 1..Len(MethodNames) |-> LowerOf(MethodNames[k])], 1, Len(MethodNames))
                           \o OtherMethods
 IntendedMethodNo(a) == IF a <= Len(MethodNames) THEN a ELSE MOther
@@ -140,6 +143,11 @@ GRejections == <<MORE, NOCR, BADCHAR, PARAMS, BAD, NOTNUMBER, TOOLONG, VALBAD, T
 
 \* cut points of the calls: one call on the whole text, or a first call in the middle of what
 \* follows the first 14 bytes
-GCuts(g, n) == LET mid == g.s + 14 + ((n - g.s - 14) \div 2) IN
-                 IF g.cut = 1 /\ n - g.s > 15 /\ mid < n THEN <<mid, n>> ELSE <<n>>
+\* (cut modes 2, 3, 4: right after the 15th byte, at the end of the first token, one byte before it -- when that
+\* is beyond the 14 bytes the parser waits for)
+GTok1(g) == IF g.kind = "req" THEN Len(GenMethods[g.a]) ELSE 7
+GCuts(g, n) == LET mid == g.s + 14 + ((n - g.s - 14) \div 2)
+                   c   == CASE g.cut = 1 -> mid [] g.cut = 2 -> g.s + 15 [] g.cut = 3 -> g.s + GTok1(g)
+                            [] g.cut = 4 -> g.s + GTok1(g) - 1 [] OTHER -> n
+               IN IF g.cut # 0 /\ n - g.s > 15 /\ c < n /\ c >= g.s + 14 THEN <<c, n>> ELSE <<n>>
 =============================================================================
